@@ -18,7 +18,7 @@ def hx(s):
     return "x" + s.hex()
 
 
-ALL_API_FINDINGS = {"D01", "D02", "D03", "D04", "D05", "D06", "D07", "D08", "D09", "D16", "D17", "D18", "D21"}
+ALL_API_FINDINGS = {"D01", "D02", "D03", "D05", "D06", "D07", "D08", "D09", "D16", "D17", "D18"}
 ALLFAM = "str,key,list,set,hash,zset,expire"
 
 
@@ -106,10 +106,6 @@ class FamilyCfg(Cfg):
 
 
 def judge_spec(v, listed):
-    if v.get("P") == "0":
-        # the pre-state already violates the structural invariant (only reachable through a listed
-        # C11 finding); the refinement theorems assume Inv, and C11 reports the step that broke it
-        return None
     if v.get("S") == "0" and not (set(v["K"]) & listed):
         return ("violation", "result or final state differs from the abstract specification (S=0), no listed classifier fires: K=" + ",".join(v["K"]))
     if v.get("A") == "0" and v.get("S") != "0":
@@ -386,7 +382,7 @@ class C10(CrossCfg):
 class C11(CrossCfg):
     tie = ["SqlMeta", "Schema"]
     facts = [r"^sql\..*\.meta$", r"^schema\."]
-    listed = {"D04", "D21"}
+    listed = set()
 
     def judge(self, op, v, mode):
         if v.get("P") == "1" and v.get("I") == "0" and not (set(v["K"]) & self.listed):
@@ -399,7 +395,7 @@ class C11(CrossCfg):
 class C12(CrossCfg):
     tie = ["SqlVerb", "Facts_rstring", "Facts_rkey", "Facts_rlist", "Facts_rset", "Facts_rhash", "Facts_rzset"]
     facts = [r"^sql\..*\.verb$", r"^facts\.", r"^wrappers\."]
-    listed = {"D04"}
+    listed = set()
 
     def counts(self, op, v):
         return v.get("N") in ("0", "1")
@@ -443,9 +439,36 @@ class C17(Cfg):
         return judge_spec(v, self.listed)
 
 
+class C16(Cfg):
+    lean = ["Props.C16", "Audit.C16"]
+    audit = ["C16"]
+    tie = ["SqlOrderLimit", "SqlFull_rkey", "SqlFull_rset", "SqlFull_rhash", "SqlFull_rzset"]
+    facts = [r"^sql\..*\.sqlScan", r"^sql\..*\.(order|limit)$", r"^facts\..*Scan", r"^consts\.scanPageSize"]
+    listed = {"D10"}
+    rule = ("collections of 0..40 elements (sets, hashes, sorted sets, the keyspace with all five types) built in ascending, descending and random "
+            "order, with interleaved deletes and re-inserts, after a rename and as the destination of a store; each drained twice (cursor fed back "
+            "until an empty page; Scanner object) for page sizes {default, 1, 2, 3, n, n+1, negative, random} x six patterns x type filters; "
+            "a case is one drain, distinct by (collection dump, request), non-trivial when something matched")
+
+    def streams(self, tier, seed, search):
+        n = 16
+        t = 600 if tier == "thorough" else (96 if search else 48)
+        return [dict(kind="scan", args=["-seed", seed * 1000 + 400 + i, "-traces", t, "-maxn", 40]) for i in range(n)]
+
+    def counts(self, op, v):
+        return True
+
+    def judge(self, op, v, mode):
+        if v.get("S") == "0" and not (set(v["K"]) & self.listed):
+            return ("violation", "the iteration did not return every matching element exactly once and the rowid order agrees with the index order (no D10)")
+        if v.get("M") == "0":
+            return ("corr", "model iteration and real iteration disagree")
+        return None
+
+
 PROPS = {
     "C01": C01("C01", "str", "rstring", {"D05", "D17"}),
-    "C02": C02("C02", "list", "rlist", {"D01", "D02", "D03", "D04", "D05", "D21"}),
+    "C02": C02("C02", "list", "rlist", {"D01", "D02", "D03", "D05"}),
     "C03": C03("C03", "set", "rset", {"D05", "D07", "D08"}),
     "C04": C04("C04", "hash", "rhash", {"D05", "D17"}),
     "C05": C05("C05", "zset", "rzset", {"D05", "D07", "D08", "D09"}),
@@ -453,6 +476,7 @@ PROPS = {
     "C10": C10(),
     "C11": C11(),
     "C12": C12(),
+    "C16": C16(),
     "C17": C17(),
     "C19": C19(),
 }
